@@ -35,6 +35,7 @@ class Column:
 
     def __init__(self, df: TableDataFrame, name: str, table_info: ComplementaryTableInfo = None):
         self._name = name
+        self._df = df
         self._values = df[name]
         if not table_info:
             table_info = get_table_info(df)
@@ -63,7 +64,10 @@ class Column:
 
     @values.setter
     def values(self, values):
-        self._values.update(pd.Series(values))
+        # Write back through the dataframe, by position: updating the extracted Series
+        # does not reach the dataframe (copy-on-write) and would align on index labels.
+        self._df[self._name] = pd.Series(values).to_numpy()
+        self._values = self._df[self._name]
 
     def convert_units(self, to: Union[str, None], converter: UnitConverter):
         """Converts this column's units in place.
